@@ -10,6 +10,8 @@ import gen_cube as G
 
 ID = "C03"
 LEAN_MODULES = ["CatiiProps.C03"]
+USES_TRANSLATOR = ["strides"]   # Gen/StridesGen.lean is rewritten from xcube._set_strides / strided_dims (tools/translate_strides.py)
+TRUSTED = ["tools/translate_strides.py (numpy.cumprod / flip / append / [1:] / [-1] as list operations; the multiplier of strided_dims is an int64 scalar, so NumPy widens the product; astype wraps modulo 2^bits)"]
 RULE = ("dimension lists as C02 (0..4 dims, one/two/three-axis, any commons, inferred or explicit shapes); facts (N,) or "
         "(N,K<=3), float64 NaN-marked / (values, validity) with garbage (incl. NaN) under False / int64 with validity; "
         "weights none / scalar / array / (values, validity), zeros included; both missing-value policies; dense arrays "
